@@ -47,6 +47,7 @@ type Spec struct {
 	Prelude       bool              `json:"prelude,omitempty"`        // before anything else, the same request is validated against a sibling document (same names, other defaults) in this process
 	SharedOptions bool              `json:"shared_options,omitempty"` // every validation of the run is given the same Options value per option set (as a middleware does)
 	RejectedFirst bool              `json:"rejected_first,omitempty"` // request leg: a request whose credentials nobody accepts is validated first, through the same Options
+	NoAuthFunc    bool              `json:"no_auth_func,omitempty"`   // the caller configured no AuthenticationFunc at all
 }
 
 type ReqSpec struct {
@@ -70,6 +71,8 @@ type RespSpec struct {
 	Body    string           `json:"body,omitempty"`
 	Chunk   simenv.ChunkPlan `json:"chunk,omitempty"`
 	NilBody bool             `json:"nil_body,omitempty"`
+	Form    string           `json:"form,omitempty"` // "" a stream | seek: a seekable body the caller has already read a prefix of | nobody: http.NoBody for an empty body
+	Skip    int              `json:"skip,omitempty"` // seek: length of the prefix already consumed
 }
 
 func chunkPlan(r *simfw.RNG, n int, fault bool) simenv.ChunkPlan {
@@ -267,6 +270,7 @@ var paramPool = []ParamDecl{
 	{Name: "X-Level", In: "header", Type: "integer", Default: float64(3)},
 	{Name: "ratio", In: "query", Type: "number", Default: float64(1234567.5)},
 	{Name: "ids", In: "query", Type: "array", Default: []any{float64(5), float64(3000000)}, Explode: "true"},
+	{Name: "filter", In: "query", Type: "object", Default: map[string]any{"state": "open"}, Content: true},
 	{Name: "sess", In: "cookie", Type: "string", Default: "anon"},
 	{Name: "page", In: "cookie", Type: "integer", Default: float64(1)},
 	{Name: "q", In: "query", Type: "string"},                      // no default
@@ -299,6 +303,7 @@ func Gen(seed uint64, prop, tier string) *Spec {
 	s.Prelude = r.Chance(1, 3)
 	s.SharedOptions = r.Chance(2, 3)
 	s.RejectedFirst = r.Chance(1, 4)
+	s.NoAuthFunc = r.Chance(1, 12)
 	if s.Leg == "response" {
 		genResponse(r, s)
 		return s
@@ -314,7 +319,7 @@ func Gen(seed uint64, prop, tier string) *Spec {
 		d.SecOp = simfw.Pick(r, shapes[2:])
 	}
 	modes := []string{"ok", "ok", "fail", "read_ok", "read_fail", "part_ok", "part_fail", "sig", "sig", "close_ok", "scoped", "scoped"}
-	s.Auth = map[string]string{"a": simfw.Pick(r, modes), "b": simfw.Pick(r, modes), "c": simfw.Pick(r, modes)}
+	s.Auth = map[string]string{"a": simfw.Pick(r, modes), "b": simfw.Pick(r, modes), "x-c": simfw.Pick(r, modes)}
 	// parameters
 	seen := map[string]bool{}
 	for _, i := range r.Perm(len(paramPool)) {
@@ -333,7 +338,7 @@ func Gen(seed uint64, prop, tier string) *Spec {
 	// location and name (then only the operation's default counts), some only inherited
 	if r.Chance(1, 3) {
 		for _, p := range d.Params {
-			if p.Default != nil && p.Type != "array" && r.Bool() {
+			if p.Default != nil && p.Type != "array" && !p.Content && r.Bool() {
 				pp := ParamDecl{Name: p.Name, In: p.In, Type: p.Type}
 				switch p.Type {
 				case "integer", "number":
@@ -407,6 +412,8 @@ func Gen(seed uint64, prop, tier string) *Spec {
 				}
 			case "array":
 				val = "z"
+			case "object":
+				val = `{"state":"closed"}`
 			}
 			switch p.In {
 			case "query":
@@ -571,6 +578,9 @@ func genResponse(r *simfw.RNG, s *Spec) {
 		p.Body = `{"id": 3, "tag": "` + mk
 	case 6:
 		p.Body = "text " + mk + strings.Repeat(" pad", r.Range(0, 400))
+		if r.Chance(1, 5) {
+			p.Body = ")]}',\n" + p.Body // text that begins the way guarded JSON does
+		}
 		bodyCT = "text/plain"
 	case 7:
 		p.Body = "<x>" + mk + "</x>"
@@ -641,6 +651,15 @@ func genResponse(r *simfw.RNG, s *Spec) {
 	}
 	if fault {
 		s.Again = true
+	}
+	// other forms a body takes: a seekable one the caller has read a prefix of; the http.NoBody sentinel
+	if !fault {
+		switch {
+		case p.Body == "" && r.Bool():
+			p.Form = "nobody"
+		case p.Body != "" && r.Chance(1, 8):
+			p.Form, p.Skip = "seek", r.Range(1, 40)
+		}
 	}
 	// sometimes a short history: more responses for the same operation, validated
 	// before the first body is read back
